@@ -169,7 +169,7 @@ def _collect(tier):
             t = r["t"]
             if t == "gating":
                 run = r["runs"][k - 1] if 0 < k <= len(r["runs"]) else {}
-                f = {"property": prop, "clause": clause, "rule": "", "input": r["file"], "config": "%s ap=%s skip=%s" % (r["cfg"].split(":")[0], run.get("ap"), run.get("skip")),
+                f = {"property": prop, "clause": clause, "rule": "", "input": r["file"], "config": "%s ap=%s skip=%s" % (r["cfg"], run.get("ap"), run.get("skip")),
                      "detail": {"cfg": r["cfg"], "run": {k2: v for k2, v in run.items() if k2 != "reported"}, "reported": len(run.get("reported", [])), "violations": len(r["V"])}}
             elif t == "purity":
                 names = [x[0] for x in r.get("impure_names", [])]
